@@ -690,9 +690,9 @@ impl EGraph {
             self.report_level,
             context,
         )?;
-        if let Some(message) = self.panic_message.lock().unwrap().take() {
-            return Err(PanicError(message).into());
-        }
+        // The writes staged by the rules (including unions) have already been merged, so even
+        // when a rule panicked the database must be rebuilt before the error is reported.
+        let panicked = self.panic_message.lock().unwrap().take();
 
         let mut iteration_report = IterationReport {
             rule_set_report,
@@ -705,6 +705,9 @@ impl EGraph {
             // Rebuilding is only necessary when new unions have been made because ids may need to be updated.
             // Adding terms doesn't necessarily touch the union-find, only doing a union between existing ids does.
             self.inc_ts();
+            if let Some(message) = panicked {
+                return Err(PanicError(message).into());
+            }
             return Ok(iteration_report);
         }
 
@@ -712,7 +715,7 @@ impl EGraph {
         self.rebuild()?;
         iteration_report.rebuild_time = rebuild_timer.elapsed();
 
-        if let Some(message) = self.panic_message.lock().unwrap().take() {
+        if let Some(message) = panicked.or_else(|| self.panic_message.lock().unwrap().take()) {
             return Err(PanicError(message).into());
         }
 
